@@ -25,10 +25,12 @@ LISTDIR = os.path.join(os.path.dirname(os.path.abspath(__file__)), 'c2clite.d')
 
 
 KEEP_EXTERN = set()      # (file, C name): see @extern below
+LATE = set()             # Coq names: see @late below
 
 
 def read_lists():
     out = []
+    late_file = None
     for fn in sorted(os.listdir(LISTDIR)):
         if not fn.endswith('.list'):
             continue
@@ -43,9 +45,17 @@ def read_lists():
                     die('%s: bad line %r' % (fn, line))
                 KEEP_EXTERN.add((line[1], line[2]))
                 continue
+            if line[0] == '@late':
+                # the functions listed BEHIND this line in the same list file are translated after every other function (not together
+                # with the earlier functions of their C file), so that the global blocks G_* and extern indices X_* they bring along
+                # are appended at the end and the indices of the other groups do not move
+                late_file = fn
+                continue
             if len(line) not in (2, 3):
                 die('%s: bad line %r' % (fn, line))
             out.append((line[0], line[1], line[2] if len(line) == 3 else line[1]))
+            if late_file == fn:
+                LATE.add(out[-1][2])
     names = [c for _, _, c in out]
     if len(set(names)) != len(names):
         die('duplicate Coq names in the whitelist')
@@ -900,9 +910,14 @@ class Translator:
         out = []
         by_file = {}
         for f, fn, coq in FUNCS:
-            by_file.setdefault(f, []).append((fn, coq))
+            if coq not in LATE:
+                by_file.setdefault(f, []).append((fn, coq))
+        for f, fn, coq in FUNCS:
+            if coq in LATE:
+                by_file.setdefault(f + '\0late', []).append((fn, coq))
         bodies = {}
         for f, fns in by_file.items():
+            f = f.split('\0')[0]
             self.cur_file = f
             for fn, coq in fns:
                 decl = None
@@ -920,7 +935,7 @@ class Translator:
                     self.stubs[coq] = '%s:%s uses a construct outside the translated subset: %s' % (f, fn, e)
                     bodies[coq] = (0, 0, 'SSkip')
         w = out.append
-        w('(* GENERATED by tools/c2clite.py from %s -- do not edit.  One CLite term per C function. *)' % ', '.join(sorted(by_file)))
+        w('(* GENERATED by tools/c2clite.py from %s -- do not edit.  One CLite term per C function. *)' % ', '.join(sorted(set(k.split('\0')[0] for k in by_file))))
         w('From Coq Require Import List ZArith.')
         w('From NV Require Import CLite.')
         w('Import ListNotations.')
